@@ -82,8 +82,14 @@ def instances(tier, rng):
             if len(u["edges"]) >= 3:
                 ops.append(["width", [list(e) for e in rng.sample(u["edges"], 2)]])
             for st, en in (([], []), ([rng.choice(u["nodes"])], []), ([], [rng.choice(u["nodes"])])):
+                # interleaved with queries that do NOT pass the synthetic edges (unjudged; they only warm the object's caches)
+                mixed = []
+                for o in ops:
+                    if rng.random() < 0.5:
+                        mixed.append(["width_raw", o[1]])
+                    mixed.append(o)
                 subs.append({"kind": "dag" if kind == "dag" else "digraph", "nodes": u["nodes"], "edges": u["edges"],
-                             "starts": st, "ends": en, "ops": ops})
+                             "starts": st, "ends": en, "ops": mixed})
     # larger seeded random cyclic digraphs (5-6 nodes): parallel exits / entries of an SCC next to competing branches;
     # every pair of ignored edges is queried
     import itertools
@@ -192,6 +198,9 @@ def run(tier, seed):
     nid = 10 ** 6
     for s in srecs:
         for ev in s.get("events", []):
+            if ev["op"] == "width_raw":
+                res.count_class("unjudged_raw_width_queries")
+                continue
             base = {"cls": "kPathCover" if s["kind"] == "dag" else "kPathCoverCycles", "nodes": s["nodes"],
                     "edges": s["edges"], "mode": "edge", "ign": ev["arg"][0] if ev["op"] == "width" else [],
                     "cons": [], "cons_kind": "edge", "cov": [1, 1], "starts": s["starts"], "ends": s["ends"],
